@@ -27,10 +27,10 @@ mutual
     | tuple xs => simp only [comparable] at hx; simp only [eq]; exact eqList_refl_tuple num xs hx
     | dict s xs =>
       simp only [comparable, Bool.and_eq_true] at hx
-      rw [eq_dict]; exact eqD_refl ok num xs hx.1 hx.2
+      rw [eq_dict]; exact eqD_refl ok num none xs hx.1 hx.2
     | obj c xs =>
       simp only [comparable, Bool.and_eq_true] at hx
-      rw [eq_obj, eqD_refl ok num xs hx.1 hx.2]; simp
+      rw [eq_obj, eqD_refl ok num (some (env.fields c)) xs hx.1 hx.2]; simp
   theorem eqList_refl (ok : EnvOk env) (num : Bool) (xs : List Val)
       (hx : comparableList env num xs = true) : eqList xs xs = true := by
     cases xs with
@@ -38,15 +38,15 @@ mutual
     | cons x xs =>
       simp only [comparableList, Bool.and_eq_true] at hx
       simp [eqList, eq_refl ok num x hx.1, eqList_refl ok num xs hx.2]
-  theorem eqD_refl (ok : EnvOk env) (num : Bool) (xs : List (Atom × Val))
-      (ax : ascKeys env xs = true) (hx : comparableItems env num xs = true) : eqD xs xs = true := by
+  theorem eqD_refl (ok : EnvOk env) (num : Bool) (sh : Option (List Atom)) (xs : List (Atom × Val))
+      (ax : keysOk env sh xs = true) (hx : comparableItems env num xs = true) : eqD xs xs = true := by
     cases xs with
     | nil => exact eqD_nil
     | cons p xs =>
       obtain ⟨k, v⟩ := p
       simp only [comparableItems, Bool.and_eq_true] at hx
       rw [eqD_cons_eq ok ax ax (atomEq_refl k), eq_refl ok num v hx.1,
-        eqD_refl ok num xs (ascKeys_cons ax).2 hx.2]
+        eqD_refl ok num (shTail sh) xs (keysOk_tail ax) hx.2]
       rfl
 end
 
@@ -61,6 +61,13 @@ theorem evalHashList_reh (H : PyHash) (ts : List HTerm) :
   induction ts with
   | nil => rfl
   | cons t ts ih => simp [evalHashList, evalHash, ih]
+
+theorem evalHashList_map (H : PyHash) (f : HTerm → HTerm) (g : Int → Int)
+    (hf : ∀ t, evalHash H (f t) = g (evalHash H t)) (ts : List HTerm) :
+    evalHashList H (ts.map f) = (evalHashList H ts).map g := by
+  induction ts with
+  | nil => rfl
+  | cons t ts ih => simp [evalHashList, hf, ih]
 
 theorem isMissing_congr {v w : Val} (h : eq v w = true) : isMissing v = isMissing w := by
   cases v <;> cases w <;> simp [eq] at h <;> try rfl
@@ -114,12 +121,6 @@ mutual
     | list s xs =>
       cases y with
       | list t ys =>
-        cases s with
-        | false => simp [hashTerm] at h1
-        | true =>
-        cases t with
-        | false => simp [hashTerm] at h2
-        | true =>
         simp only [hashTerm] at h1 h2
         cases hxs : hashList xs with
         | error e => simp [hxs] at h1
@@ -129,8 +130,10 @@ mutual
             simp [hxs] at h1; simp [hys] at h2; subst h1; subst h2
             simp only [comparable] at hx hy
             simp only [eq] at he
-            simp only [evalHash, evalHashList, evalHashList_reh,
-              hashList_congr ok hH num xs ys t1 t2 hx hy he hxs hys]
+            have e := hashList_congr ok hH num xs ys t1 t2 hx hy he hxs hys
+            simp only [evalHash, evalHashList]
+            rw [evalHashList_map H (HTerm.reh ∘ HTerm.reh) (H.int ∘ H.int) (fun t => rfl),
+              evalHashList_map H (HTerm.reh ∘ HTerm.reh) (H.int ∘ H.int) (fun t => rfl), e]
       | _ => simp [eq] at he
     | tuple xs =>
       cases y with
@@ -144,17 +147,13 @@ mutual
             simp [hxs] at h1; simp [hys] at h2; subst h1; subst h2
             simp only [comparable] at hx hy
             simp only [eq] at he
-            simp only [evalHash, hash_tuple hH num xs ys t1 t2 hx hy he hxs hys]
+            have e := hash_tuple hH num xs ys t1 t2 hx hy he hxs hys
+            simp only [evalHash]
+            rw [evalHashList_reh, evalHashList_reh, e]
       | _ => simp [eq] at he
     | dict s xs =>
       cases y with
       | dict t ys =>
-        cases s with
-        | false => simp [hashTerm] at h1
-        | true =>
-        cases t with
-        | false => simp [hashTerm] at h2
-        | true =>
         simp only [hashTerm] at h1 h2
         cases hxs : hashItems xs with
         | error e => simp [hxs] at h1
@@ -165,7 +164,7 @@ mutual
             simp only [comparable, Bool.and_eq_true] at hx hy
             rw [eq_dict] at he
             simp only [evalHash, evalHashList,
-              hashItems_congr ok hH num xs ys t1 t2 hx.1 hx.2 hy.1 hy.2 he hxs hys]
+              hashItems_congr ok hH num none xs ys t1 t2 hx.1 hx.2 hy.1 hy.2 he hxs hys]
       | _ => simp [eq] at he
     | obj c xs =>
       cases y with
@@ -183,7 +182,7 @@ mutual
             obtain ⟨hcd, he⟩ := he
             subst hcd
             simp only [evalHash, evalHashList,
-              hashItems_congr ok hH num xs ys t1 t2 hx.1 hx.2 hy.1 hy.2 he hxs hys]
+              hashItems_congr ok hH num (some (env.fields c)) xs ys t1 t2 hx.1 hx.2 hy.1 hy.2 he hxs hys]
       | _ => simp [eq] at he
   theorem hashList_congr (ok : EnvOk env) {H : PyHash} (hH : HashOk H) (num : Bool) (xs : List Val) :
       ∀ (ys : List Val) (txs tys : List HTerm), comparableList env num xs = true →
@@ -215,10 +214,10 @@ mutual
                 simp only [evalHashList]
                 rw [hash_congr ok hH num x y tx ty hx.1 hy.1 he.1 hx1 hy1,
                   hashList_congr ok hH num xs ys t1 t2 hx.2 hy.2 he.2 hxs hys]
-  theorem hashItems_congr (ok : EnvOk env) {H : PyHash} (hH : HashOk H) (num : Bool) (xs : List (Atom × Val)) :
+  theorem hashItems_congr (ok : EnvOk env) {H : PyHash} (hH : HashOk H) (num : Bool) (sh : Option (List Atom)) (xs : List (Atom × Val)) :
       ∀ (ys : List (Atom × Val)) (txs tys : List HTerm),
-      ascKeys env xs = true → comparableItems env num xs = true →
-      ascKeys env ys = true → comparableItems env num ys = true → eqD xs ys = true →
+      keysOk env sh xs = true → comparableItems env num xs = true →
+      keysOk env sh ys = true → comparableItems env num ys = true → eqD xs ys = true →
       hashItems xs = .ok txs → hashItems ys = .ok tys → evalHashList H txs = evalHashList H tys := by
     intro ys txs tys ax hx ay hy he h1 h2
     cases xs with
@@ -249,13 +248,43 @@ mutual
                 | ok t2 =>
                   simp [hx1, hxs] at h1; simp [hy1, hys] at h2; subst h1; subst h2
                   have e1 := hash_congr ok hH num v w tx ty hx.1 hy.1 he.1 hx1 hy1
-                  have e2 := hashItems_congr ok hH num xs ys t1 t2 (ascKeys_cons ax).2 hx.2
-                    (ascKeys_cons ay).2 hy.2 he.2 hxs hys
+                  have e2 := hashItems_congr ok hH num (shTail sh) xs ys t1 t2 (keysOk_tail ax) hx.2
+                    (keysOk_tail ay) hy.2 he.2 hxs hys
                   rw [← isMissing_congr he.1]
                   cases isMissing v
                   · simp only [Bool.false_eq_true, if_false, evalHashList, evalHash]
                     rw [e1, e2, hH.atom_congr k k' hk]
                   · simpa using e2
+end
+
+/-! ### `pg.hash` never raises (fix F16) -/
+
+mutual
+  theorem hashTerm_total (x : Val) : ∃ t, hashTerm x = .ok t := by
+    cases x with
+    | atom a => exact ⟨_, rfl⟩
+    | list s xs => obtain ⟨ts, h⟩ := hashList_total xs; simp only [hashTerm, h]; exact ⟨_, rfl⟩
+    | tuple xs => obtain ⟨ts, h⟩ := hashList_total xs; simp only [hashTerm, h]; exact ⟨_, rfl⟩
+    | dict s kvs => obtain ⟨ts, h⟩ := hashItems_total kvs; simp only [hashTerm, h]; exact ⟨_, rfl⟩
+    | obj c kvs => obtain ⟨ts, h⟩ := hashItems_total kvs; simp only [hashTerm, h]; exact ⟨_, rfl⟩
+  termination_by structural x
+  theorem hashList_total (xs : List Val) : ∃ ts, hashList xs = .ok ts := by
+    cases xs with
+    | nil => exact ⟨_, rfl⟩
+    | cons x xs =>
+      obtain ⟨t, h1⟩ := hashTerm_total x
+      obtain ⟨ts, h2⟩ := hashList_total xs
+      simp only [hashList, h1, h2]; exact ⟨_, rfl⟩
+  termination_by structural xs
+  theorem hashItems_total (xs : List (Atom × Val)) : ∃ ts, hashItems xs = .ok ts := by
+    cases xs with
+    | nil => exact ⟨_, rfl⟩
+    | cons p xs =>
+      obtain ⟨k, v⟩ := p
+      obtain ⟨t, h1⟩ := hashTerm_total v
+      obtain ⟨ts, h2⟩ := hashItems_total xs
+      simp only [hashItems, h1, h2]; exact ⟨_, rfl⟩
+  termination_by structural xs
 end
 
 end Pg.C06
